@@ -74,13 +74,21 @@ structure Thread (D R : Type) where
   loc : D
   /-- operand snapshot taken under the operand's lock -/
   opLoc : D
+  /-- ghost: how many calls on the operand wrapper had been linearised when the snapshot was taken -/
+  opAt : Nat
   res : List R
 
 structure Entry (D R : Type) where
   tid : Nat
   call : Call D R
+  /-- the operand snapshot the call used -/
   op : D
+  /-- ghost: the snapshot was taken after exactly this many linearised calls on the operand wrapper -/
+  opAt : Nat
   r : R
+
+/-- the entries whose receiver is wrapper `m`: the linearised history of `m` -/
+def onRecv (m : Nat) (log : List (Entry D R)) : List (Entry D R) := log.filter (fun e => e.call.recv == m)
 
 structure State (D R : Type) where
   holder : Nat → Option Nat
@@ -110,9 +118,10 @@ def step (s : State D R) (t : Nat) : Option (State D R) :=
       | some o =>
         if c.opLocked then
           match s.holder o with
-          | none => some { s with holder := upd s.holder o (some t), th := upd s.th t { T with pc := .snapHeld, opLoc := s.data o } }
+          | none => some { s with holder := upd s.holder o (some t),
+                                  th := upd s.th t { T with pc := .snapHeld, opLoc := s.data o, opAt := (onRecv o s.log).length } }
           | some _ => none
-        else some { s with th := upd s.th t { T with pc := .snapHeld, opLoc := s.data o } }
+        else some { s with th := upd s.th t { T with pc := .snapHeld, opLoc := s.data o, opAt := (onRecv o s.log).length } }
       | none => acquireRecv s t T c
     | .snapHeld =>
       match c.snapTarget with
@@ -141,7 +150,7 @@ def step (s : State D R) (t : Nat) : Option (State D R) :=
       let out := c.f T.loc T.opLoc
       some { s with data := upd s.data c.recv out.1,
                     th := upd s.th t { T with pc := .written, res := T.res ++ [out.2] },
-                    log := s.log ++ [{ tid := t, call := c, op := T.opLoc, r := out.2 }] }
+                    log := s.log ++ [{ tid := t, call := c, op := T.opLoc, opAt := T.opAt, r := out.2 }] }
     | .written =>
       some { s with holder := if c.locked then upd s.holder c.recv none else s.holder,
                     th := upd s.th t { T with pc := .start, todo := rest } }
@@ -149,7 +158,7 @@ def step (s : State D R) (t : Nat) : Option (State D R) :=
 /-- initial state: nobody holds a lock; thread `t` is about to run `progs t` -/
 def init (d0 : Nat → D) (dflt : D) (progs : Nat → List (Call D R)) : State D R :=
   { holder := fun _ => none, data := d0,
-    th := fun t => { pc := .start, todo := progs t, loc := dflt, opLoc := dflt, res := [] },
+    th := fun t => { pc := .start, todo := progs t, loc := dflt, opLoc := dflt, opAt := 0, res := [] },
     log := [] }
 
 /-- all interleavings: the states reachable by any sequence of thread choices -/
